@@ -8,7 +8,7 @@ import tempfile
 
 sys.path.insert(0, os.path.dirname(os.path.dirname(os.path.abspath(__file__))))
 from vlib import build, genmon, schemes
-from vlib.common import Check, REPO, main_guard, run
+from vlib.common import Check, NCPU, REPO, main_guard, pmap, run
 
 BKG_TITLE = "List of standard radioactive isotopes (background/calibration)"
 DBD_TITLE = "List of supported  double beta decay isotopes"
@@ -54,11 +54,10 @@ def write_table(path, scheme, low):
         f.write("  return r;\n}\n")
 
 
-def main():
-    chk = Check("C05", "exploration")
-    quick = chk.tier == "quick"
+def dispatch(chk, variant, nev, env=None, on_fail=None):
+    """Part 1 (dispatch through genbbsub against the schemes themselves) in the given build variant."""
     scheme, low = scan_headers()
-    bdir = build.build("plain", targets=("BxDecay0",))
+    bdir = build.build(variant, targets=("BxDecay0",))
     gen_dir = os.path.join(bdir, "gen")
     os.makedirs(gen_dir, exist_ok=True)
     write_table(os.path.join(gen_dir, "c05_table.inc"), scheme, low)
@@ -104,15 +103,47 @@ def main():
                     for published in forms:
                         lines.append("D %s %d %d %d %s %s" % (published, idx, mode, int(round(t["levels"][idx])), lowfn, " ".join(chain)))
                     break
-    exe = build.harness("plain", "c05_dispatch", ["c05_dispatch.cc"], extra_flags="-I" + gen_dir)
-    spec = tempfile.NamedTemporaryFile("w", suffix=".spec", delete=False, dir=bdir)
-    spec.write("\n".join(lines) + "\n")
-    spec.close()
-    nev = 3000 if quick else 100000
-    rc, out, err = run([exe, spec.name, str(chk.seed), str(nev)], timeout=7200, env=build.lib_env("plain"))
-    os.unlink(spec.name)
-    if rc != 0:
-        chk.inconclusive_("c05_dispatch exited %s: %s" % (rc, err[-600:]))
+    exe = build.harness(variant, "c05_dispatch", ["c05_dispatch.cc"], extra_flags="-I" + gen_dir)
+    def one(chunk):
+        spec = tempfile.NamedTemporaryFile("w", suffix=".spec", delete=False, dir=bdir)
+        spec.write("\n".join(chunk) + "\n")
+        spec.close()
+        r = run([exe, spec.name, str(chk.seed), str(nev)], timeout=7200, env=build.lib_env(variant, env))
+        os.unlink(spec.name)
+        return r
+
+    out = ""
+    for rc, o, err in pmap(one, [lines[k::NCPU] for k in range(NCPU)], jobs=NCPU):
+        out += o
+        if rc == 0:
+            continue
+        if on_fail:
+            on_fail(chk, "c05_dispatch", rc, err, "dispatch")
+        elif rc is not None and (rc < 0 or rc >= 128):
+            sig = -rc if rc < 0 else rc - 128
+            chk.violation("c05_dispatch|signal%d" % sig, "the dispatch harness died with signal %d: %s" % (sig, err[-600:]), {"stderr": err[-3000:]})
+        else:
+            chk.inconclusive_("c05_dispatch exited %s: %s" % (rc, err[-600:]))
+    return lines, out, table, readme_bkg, readme_dbd, lis_bkg, lis_dbd, levels, scheme, low
+
+
+def run_under(chk, variant, env, quick, report):
+    """C08 hook: the dispatch workload (all published names, all three start modes of genbbsub) in a sanitizer build."""
+    lines, out = dispatch(chk, variant, 60 if quick else 2000, env, report)[:2]
+    events = distinct = 0
+    for ln in out.splitlines():
+        if ln.startswith("{"):
+            r = json.loads(ln)
+            events += r["events"]
+            distinct += r["distinct_signatures"]
+    return events, distinct, {"configurations": len(lines), "events": events}
+
+
+def main():
+    chk = Check("C05", "exploration")
+    quick = chk.tier == "quick"
+    lines, out, table, readme_bkg, readme_dbd, lis_bkg, lis_dbd, levels, scheme, low = dispatch(chk, "plain", 3000 if quick else 100000)
+    bdir = build.build("plain", targets=("BxDecay0",))
     events = 0
     distinct = 0
     nconf = 0
